@@ -242,10 +242,29 @@ func loweredBoolPhi(v ssa.Value) (*ssa.Phi, bool) {
 	if b, isB := phi.Type().Underlying().(*types.Basic); !isB || b.Kind() != types.Bool {
 		return nil, false
 	}
-	for _, e := range phi.Edges {
-		if _, isC := e.(*ssa.Const); isC {
-			return phi, true
+	// `a && b && c` is phi[false, false, c]; `a || b` is phi[true, b]: constants of one value and exactly
+	// one computed edge.  (A boolean *variable* that is set along the way has constants of both values, or
+	// no computed edge at all – that is a flag, not a spelt-out condition.)
+	// What tells the two apart for sure: in a short-circuit expression every constant edge comes
+	// straight from the conditional jump on an earlier operand; an assignment `flag = true` reaches the
+	// phi through an unconditional jump.
+	consts, computed := map[bool]int{}, 0
+	for i, e := range phi.Edges {
+		if k, isC := e.(*ssa.Const); isC && k.Value != nil {
+			consts[constant.BoolVal(k.Value)]++
+			p := phi.Block().Preds[i]
+			if len(p.Instrs) == 0 {
+				return nil, false
+			}
+			if _, isIf := p.Instrs[len(p.Instrs)-1].(*ssa.If); !isIf {
+				return nil, false
+			}
+		} else {
+			computed++
 		}
+	}
+	if computed == 1 && len(consts) == 1 {
+		return phi, true
 	}
 	return nil, false
 }
@@ -525,6 +544,24 @@ func fieldOf(v ssa.Value) *types.Var {
 }
 
 var refNamedFieldCache = map[*types.Var]*types.Var{}
+
+// sameField: a and b denote the same struct field (either may be the stand-in refNamedField
+// hands out for a renamed field).
+func sameField(a, b *types.Var) bool {
+	if a == nil || b == nil {
+		return a == b
+	}
+	if a == b {
+		return true
+	}
+	if r, ok := refNamedFieldCache[a]; ok && r == b {
+		return true
+	}
+	if r, ok := refNamedFieldCache[b]; ok && r == a {
+		return true
+	}
+	return false
+}
 
 // refNamedField: field idx of st, presented under the name it has on the reference tree
 // (fieldmap.go) – the rules that look for a field by name keep finding it after a rename.
@@ -957,6 +994,21 @@ func (p *Program) pkgFuncs(rel string) []*ssa.Function {
 	var out []*ssa.Function
 	for _, f := range p.Funcs {
 		if f.Parent() == nil && f.Pkg != nil && f.Pkg.Pkg.Path() == modPath+"/"+rel {
+			out = append(out, f)
+		}
+	}
+	return out
+}
+
+// srcFuncs: the functions of a package that were written by somebody – not the package
+// initialiser, wrappers or thunks go/ssa synthesises (an added import changes the initialiser,
+// and that is not a change of behaviour).
+func (p *Program) srcFuncs(rel string) []*ssa.Function {
+	var out []*ssa.Function
+	for _, f := range p.pkgFuncs(rel) {
+		if f.Synthetic == "" || f.Synthetic == "package initializer" {
+			// (the initialiser holds the package's tables: which hasher a digest function uses, which
+			// collector a counter is bound to; its calls of other packages' initialisers are ignored, see calleeID)
 			out = append(out, f)
 		}
 	}
